@@ -19,5 +19,6 @@ fn main() {
     if cfg!(any(feature = "asm", feature = "detect-asm")) && can_enable_asm {
         println!("cargo:rustc-cfg=has_asm");
     }
+    println!("cargo:rustc-check-cfg=cfg(ckb_verif)");
     println!("cargo:rerun-if-changed=src");
 }
